@@ -260,10 +260,13 @@ class DefaultFormulaParser(FormulaParser):
                                 "String literals are not valid in formulae.",
                             )
 
+                # (sorted: `a:b` and `b:a` are the same term)
                 term_hash = tuple(
-                    factor.expr
-                    for factor in term.factors
-                    if factor.eval_method != Factor.EvalMethod.LITERAL
+                    sorted(
+                        factor.expr
+                        for factor in term.factors
+                        if factor.eval_method != Factor.EvalMethod.LITERAL
+                    )
                 )
                 if term_hash in seen_terms:
                     raise exc_for_token(
